@@ -409,8 +409,11 @@ def run_check(prop_id, tier, seed):
     model_cases = []
     for i, (c, r) in enumerate(zip(cases, impl)):
         c["_obs"] = r["obs"]
+        if "ops_for_model" in r:
+            c["_ops_for_model"] = r["ops_for_model"]
         for f in r["failures"]:
-            failures.append((c, f))
+            if f["key"].startswith(prop_id + "/") or f["key"] == "driver-exception":
+                failures.append((c, f))
         if not getattr(prop, "NO_MODEL_RUN", False) and not any(f["key"] == "driver-exception" for f in r["failures"]):
             if r.get("model", True):
                 model_cases.append((i, c))
@@ -433,7 +436,8 @@ def run_check(prop_id, tier, seed):
         for c, r in zip(ecases, eimpl):
             c["_obs"] = r["obs"]
             for f in r["failures"]:
-                failures.append((c, f))
+                if f["key"].startswith(prop_id + "/") or f["key"] == "driver-exception":
+                    failures.append((c, f))
         log(f"[{prop_id}] enumerator: {enum_n} cases, failures now {len(failures)}  t={time.time()-t0:.1f}s")
     else:
         ecases = []
@@ -450,7 +454,10 @@ def run_check(prop_id, tier, seed):
             known_hit.append(key)
             continue
         small = shrink(prop, c, key)
+        small.pop("_ops_for_model", None)
         r = _impl_worker(small)
+        if "ops_for_model" in r:
+            small["_ops_for_model"] = r["ops_for_model"]
         ff = next((x for x in r["failures"] if x["key"] == key), f)
         mobs, merr = (None, None)
         if not getattr(prop, "NO_MODEL_RUN", False):
@@ -538,6 +545,8 @@ def run_replay(prop_id, path):
         return 0
     build(prop)
     r = _impl_worker(case)
+    if "ops_for_model" in r:
+        case["_ops_for_model"] = r["ops_for_model"]
     mobs, merr = (None, None)
     if not getattr(prop, "NO_MODEL_RUN", False):
         mobs, merr = model_observations(prop, case)
